@@ -11,7 +11,9 @@ data-flow roles; not the digit arithmetic itself).
       and is shifted by the parameter's ls
   T4  the two sibling digit functions compute the same index / shift / mask expressions
   T5  interval analysis per (n, w, p) row of the digit functions with i in 0..p-1: no lossy narrowing while locating a
-      digit; the byte index reaches n+1 (a smaller upper bound proves that the low checksum byte is never signed)
+      digit; the byte index reaches the byte of the last digit (a smaller upper bound proves that checksum bits are never signed);
+      per (n, row) the checksum computation itself (including closures it hands to iterator adaptors) converts no value that
+      does not fit (a digit count of 256 held in a u8 makes the checksum constant)
   T6  interval analysis of the checksum-appending routine per hash size: checksum bytes are stored at positions n, n+1
 """
 from . import core, expr, flow, ia, paramtable as pt
